@@ -4,11 +4,15 @@ import (
 	"fmt"
 	"math"
 	"sort"
+	"strings"
+	"time"
 
 	"github.com/anishathalye/porcupine"
 
+	time2 "github.com/oxia-db/oxia/common/time"
 	"github.com/oxia-db/oxia/proto"
 	"github.com/oxia-db/oxia/server"
+	"github.com/oxia-db/oxia/server/kv"
 	"github.com/oxia-db/oxia/zzverif/vsched"
 )
 
@@ -416,7 +420,82 @@ func (o *LogOracle) Attach(c *Cluster, obs *Obs) {
 
 func (o *LogOracle) Point(*vsched.Sched) {}
 
+// foldCheck compares every node's database with the fold of the final leader's log up to the
+// commit offset stored in that database ("the state they apply from it is the same").
+func (o *LogOracle) foldCheck(s *vsched.Sched, final string) {
+	fl := NodeLog(o.c, final)
+	if fl == nil {
+		return
+	}
+	type nd struct {
+		name   string
+		db     kv.DB
+		commit int64
+	}
+	var nodes []nd
+	for _, name := range o.c.Order {
+		n := o.c.Nodes[name]
+		if !n.Up || n.Srv == nil {
+			continue
+		}
+		lc, fc := server.VerifControllers(n.Srv, Shard)
+		var db kv.DB
+		if lc != nil {
+			db = server.VerifLeaderDB(lc)
+		} else if fc != nil {
+			db = server.VerifFollowerDB(fc)
+		}
+		if db == nil {
+			continue
+		}
+		c, err := db.ReadCommitOffset()
+		if err != nil {
+			continue
+		}
+		nodes = append(nodes, nd{name, db, c})
+	}
+	sort.Slice(nodes, func(i, j int) bool { return nodes[i].commit < nodes[j].commit })
+	ref, err := kv.NewDB(NS, Shard, oxhMemFactory(), time.Hour, time2.SystemClock)
+	if err != nil {
+		return
+	}
+	defer ref.Close()
+	next := int64(0)
+	for _, n := range nodes {
+		for ; next <= n.commit; next++ {
+			e, ok := fl.Entries[next]
+			if !ok {
+				return // trimmed or not held: nothing to compare against
+			}
+			lev := &proto.LogEntryValue{}
+			if lev.UnmarshalVT(e.Value) != nil {
+				return
+			}
+			for _, w := range lev.GetRequests().GetWrites() {
+				if _, err := ref.ProcessWrite(w, e.Offset, e.Timestamp, server.WrapperUpdateOperationCallback); err != nil && !kv.IsInvalidRequestError(err) {
+					return
+				}
+			}
+		}
+		want := dumpForCompare(ref)
+		got := dumpForCompare(n.db)
+		if want != got {
+			s.Fail("state-differs-from-log-fold", fmt.Sprintf("database of %s (stored commit offset %d) differs from applying entries 0..%d of the final leader's log in order:\n have: %s\n want: %s", n.name, n.commit, n.commit, got, want))
+		}
+	}
+}
+
+func dumpForCompare(d kv.DB) string {
+	var b strings.Builder
+	for _, l := range dumpDB(d) {
+		b.WriteString(l)
+		b.WriteString(" | ")
+	}
+	return b.String()
+}
+
 func (o *LogOracle) Final(s *vsched.Sched, final string) {
+	o.foldCheck(s, final)
 	fl := NodeLog(o.c, final)
 	if fl == nil {
 		return
